@@ -34,7 +34,7 @@ for name, f, a, b in M:
     open(p, 'w').write(s.replace(a, b))
     try:
         extra = [p] if f.endswith('.cpp') else []          # a mutated .cpp is compiled into the harness ahead of the archive
-        exe, log = C.build_harness('harness/c04.cpp', lib, extra_flags=['-fno-access-control'], extra_srcs=extra)
+        exe, log = C.build_harness('harness/c04.cpp', lib, extra_flags=['-fno-access-control', '-DC04_MUTATION_' + name.split()[0]], extra_srcs=extra)
         if not exe:
             print('==', name, 'HARNESS BUILD FAILED', log[-400:]); continue
         lines, crashes, done = C.run_harness(exe, 1, 'quick', 900, case_timeout=120)
